@@ -184,10 +184,11 @@ def run(ctx):
     classes = [mellon.DensityEstimator, mellon.FunctionEstimator]
     if ctx.thorough:
         classes += [mellon.TimeSensitiveDensityEstimator, mellon.DimensionalityEstimator]
+    all_classes = [mellon.DensityEstimator, mellon.FunctionEstimator, mellon.TimeSensitiveDensityEstimator, mellon.DimensionalityEstimator]
     for n in (6, 12):
         X = nrng.normal(size=(n, 2))
         lm_arrays = {None: None, 3: nrng.normal(size=(3, 2)), n: nrng.normal(size=(n, 2)), n + 2: nrng.normal(size=(n + 2, 2))}
-        for cls in classes:
+        for cls in all_classes:
             Xc = X
             if cls.__name__ == "TimeSensitiveDensityEstimator":
                 Xc = np.concatenate([X, np.repeat([0.0, 1.0], n // 2)[:, None]], axis=1)
@@ -203,7 +204,8 @@ def run(ctx):
                 o = enc.outcome(lambda: impl_resolve(cls, Xc, cfg))
                 fn = "resolve_function_estimator" if cls.__name__ == "FunctionEstimator" else "resolve"
                 model = "%s (VInt %d) %s %s %s %s" % (fn, n, enc.val(nl), shape_only(lm), enc.val(rank), enc.val(gp))
-                cases.append((model, enc.res(o)))
+                if cls in classes:
+                    cases.append((model, enc.res(o)))
                 meta.append({"estimator": cls.__name__, "n": n, "n_landmarks": nl, "landmarks_m": m, "rank": rank,
                              "gp_type": gp, "impl": (o[1][0].name if o[0] == "ok" else o[1])})
                 k = "%s/%s" % (cls.__name__, meta[-1]["impl"])
@@ -227,8 +229,9 @@ def run(ctx):
         except Broken as b:
             ctx.broken.append(b)
             bad = {}
+        cmeta = [m_ for m_ in meta if m_["estimator"] in [c.__name__ for c in classes]]
         for i, shown in list(bad.items())[:20]:
-            ctx.broken.append(Broken("correspondence", "resolve", "case %r: model gives %s" % (meta[i], shown)))
+            ctx.broken.append(Broken("correspondence", "resolve", "case %r: model gives %s" % (cmeta[i], shown)))
     n_res = len(cases)
 
     # ---- B. real fits: the accepted combinations fit, promised factor shape, predictor class; refusals are ValueErrors
@@ -239,8 +242,14 @@ def run(ctx):
         for nl, m, rank, gp in grid(n):
             all_cfgs.append((n, nl, m, rank, gp))
     rng.shuffle(all_cfgs)
+    must = []
+    for n in (6, 12):
+        must += [(n, None, None, None, "fixed"), (n, 5000, None, None, "fixed"), (n, None, n, None, "fixed"), (n, None, n + 2, None, "fixed"),
+                 (n, None, n, None, None), (n, None, n, None, "full"), (n, 3, None, 0.99, None), (n, 3, None, None, "sparse"),
+                 (n, None, None, 0.5, None), (n, 1, None, None, None), (n, 0, None, None, "fixed"), (n, n + 1, None, None, None)]
+    all_cfgs = must + all_cfgs
     # make sure each gp outcome class is represented: take a stratified sample
-    budget = 150 if ctx.thorough else 36
+    budget = 170 if ctx.thorough else 44
     ests = [mellon.DensityEstimator, mellon.DimensionalityEstimator, mellon.TimeSensitiveDensityEstimator]
     seen_types = {}
     for (n, nl, m, rank, gp) in all_cfgs:
@@ -257,7 +266,7 @@ def run(ctx):
         cfg = dict(n_landmarks=nl, landmarks=lm, gp_type=gp, rank=rank)
         pre = enc.outcome(lambda: impl_resolve(cls, Xc, cfg))
         tkey = pre[1][0].name if pre[0] == "ok" else "refused"
-        if seen_types.get(tkey, 0) >= budget // 5:
+        if (n, nl, m, rank, gp) not in must and seen_types.get(tkey, 0) >= budget // 5:
             continue
         seen_types[tkey] = seen_types.get(tkey, 0) + 1
         wu = rng.random() < 0.3
@@ -297,6 +306,11 @@ def run(ctx):
         fit_cases.append((model, "(Ok (VTuple [%s; %s; VStr %s]))" % (enc.val(g), enc.val(int(est.n_landmarks)), enc.coq_str(pname))))
         fit_meta.append(dict(desc, impl=g.name))
         pred = np.asarray(est.predict(Xc))
+        fam = {"FULL": "FullConditional", "FULL_NYSTROEM": "FullConditional", "SPARSE_CHOLESKY": "LandmarksConditionalCholesky",
+               "FIXED": "LandmarksConditionalCholesky", "SPARSE_NYSTROEM": "LandmarksConditional"}[g.name]
+        if pname != fam:
+            ctx.violation("C15|fit|%s|%s|predictor-class" % (cls.__name__, g.name), "predictor class does not match the resolved type",
+                          dict(desc, resolved=g.name, predictor=type(est.predict).__name__, expected_family=fam))
         if L.shape[0] != n or not cols_ok or not np.all(np.isfinite(pred)):
             ctx.violation("C15|fit|%s|%s|shape" % (cls.__name__, g.name),
                           "accepted combination: factor shape does not match the resolved type or predictions are not finite",
